@@ -163,7 +163,10 @@ Proof. by_all_conn. Qed.
 
 Lemma settle_releases c :
   wfb c = true -> joined c = true -> ended c = true -> holds_none (settle c) = true.
-Proof. intros H J En. pose proof (settle_releases_all c) as Ha. rewrite H, J, En in Ha. exact Ha. Qed.
+Proof.
+  intros H J En. pose proof (settle_releases_all c) as Ha.
+  destruct (holds_none (settle c)); [reflexivity|]. rewrite H, J, En in Ha. discriminate Ha.
+Qed.
 
 (* a connection nothing has ended is left alone by its goroutines; a refused one has no
    goroutines: nothing moves, the socket (if there was an upgrade) stays *)
@@ -174,14 +177,16 @@ Proof. by_all_conn. Qed.
 Lemma settle_untouched c :
   wfb c = true -> joined c = true -> ended c = false -> settle c = c.
 Proof.
-  intros H J En. pose proof (settle_fixed_all c) as Ha. rewrite H, J, En in Ha. cbn in Ha.
-  apply conn_ext; [apply same_bits_eq; exact Ha|apply topic_settle].
+  intros H J En. pose proof (settle_fixed_all c) as Ha.
+  destruct (same_bits (settle c) c) eqn:Sb; [|rewrite H, J, En in Ha; discriminate Ha].
+  apply conn_ext; [apply same_bits_eq; exact Sb|apply topic_settle].
 Qed.
 
 Lemma settle_refused c : wfb c = true -> joined c = false -> settle c = c.
 Proof.
-  intros H J. pose proof (settle_fixed_all c) as Ha. rewrite H, J in Ha. cbn in Ha.
-  apply conn_ext; [apply same_bits_eq; exact Ha|apply topic_settle].
+  intros H J. pose proof (settle_fixed_all c) as Ha.
+  destruct (same_bits (settle c) c) eqn:Sb; [|rewrite H, J in Ha; discriminate Ha].
+  apply conn_ext; [apply same_bits_eq; exact Sb|apply topic_settle].
 Qed.
 
 Lemma refused_only_socket_all : forall c,
@@ -192,7 +197,7 @@ Proof. by_all_conn. Qed.
 Lemma refused_holds_at_most_socket c k :
   wfb c = true -> joined c = false -> holds c k = true -> k = Sock.
 Proof.
-  intros H J Hk. pose proof (refused_only_socket_all c) as Ha. rewrite H, J in Ha. cbn in Ha.
+  intros H J Hk. pose proof (refused_only_socket_all c) as Ha. rewrite H, J in Ha. cbn [andb orb negb implb] in Ha.
   repeat (apply andb_true_iff in Ha; destruct Ha as [Ha ?]).
   destruct k; cbn [holds] in Hk; try reflexivity; rewrite Hk in *; discriminate.
 Qed.
@@ -274,7 +279,10 @@ Qed.
 (* F08a: and it does keep it *)
 Lemma refused_socket_left_open :
   exists h id c, clk id (run h) = Some c /\ ended c = true /\ held (settle c) = [Sock].
-Proof. exists [EConnect 1%N (Refuse BadCode) 7%N true], 1%N. eexists. vm_compute. repeat split. Qed.
+Proof.
+  exists [EConnect 1%N (Refuse BadCode) 7%N true], 1%N, (connect (Refuse BadCode) 7%N true).
+  vm_compute. repeat split.
+Qed.
 
 Lemma not_listed c : wfb c = true -> ended c = true -> h_member (settle c) = false.
 Proof.
@@ -351,7 +359,7 @@ Lemma footprint_bounded h k :
   (count_res k (settle_all (run h)) <= live (run h) + (match k with Sock => refused_open (run h) | _ => 0 end))%N.
 Proof.
   destruct (wf_run h) as [Hnd Hwf]. set (s := run h) in *.
-  unfold count_res. rewrite count_settle_all.
+  unfold count_res. rewrite (count_settle_all (fun c => holds c k)).
   assert (Hcase : forall kv, In kv s -> holds (settle (snd kv)) k = true ->
             (joined (snd kv) && negb (ended (snd kv))) ||
             (match k with Sock => negb (joined (snd kv)) && h_sock (snd kv) | _ => false end) = true).
@@ -375,7 +383,7 @@ Lemma goroutines_exact h k :
   count_res k (settle_all (run h)) = live (run h).
 Proof.
   intros Hk. destruct (wf_run h) as [Hnd Hwf]. set (s := run h) in *.
-  unfold count_res, live. rewrite count_settle_all.
+  unfold count_res, live. rewrite (count_settle_all (fun c => holds c k)).
   apply N.le_antisymm; apply count_le; intros [id c] Hin Hx; cbn [snd] in *;
     pose proof (Hwf id c (In_lookup _ _ _ Hnd Hin)) as Hc.
   - destruct (joined c) eqn:J.
@@ -387,7 +395,7 @@ Proof.
       destruct Hk as [Hk|[Hk|Hk]]; discriminate.
   - apply andb_true_iff in Hx. destruct Hx as [J En]. apply negb_true_iff in En.
     rewrite settle_untouched by assumption.
-    pose proof (live_untouched_all c) as Ha. rewrite Hc, J, En in Ha. cbn in Ha.
+    pose proof (live_untouched_all c) as Ha. rewrite Hc, J, En in Ha. cbn [andb orb negb implb] in Ha.
     repeat (apply andb_true_iff in Ha; destruct Ha as [Ha ?]).
     destruct Hk as [->|[->|->]]; cbn [holds]; assumption.
 Qed.
